@@ -131,3 +131,17 @@ Theorem C06_code_overlap_filter :
   ltac:(let t := type of C06_code_overlap_filter_tables in exact t).
 Proof. exact C06_code_overlap_filter_tables. Qed.
 Print Assumptions C06_code_overlap_filter.
+
+(* ==== the RELATIONAL property stated directly about the code: two (or three) calls of the functions
+   regenerated from the Python source on this run, related through the key-level views of the frames they
+   return (code_view); obtained by transferring the laws proved from the single-call specs (Laws*.v) along
+   `generated code refines api_join` *)
+From SSJ Require Import CodeLevelBase CodeLevelJoins CodeLevelJoins2 CodeLevelFilters CodeLevelMatcher CodeLevelTight CodeLevelRelBase CodeLevelRelCalls CodeLevelRel CodeLevelRel2 CodeLevelRel3 CodeLevelRel4 CodeLevelRel5 CodeLevelRel6.
+Theorem C06_code_candset :
+  ltac:(let t := type of C06_code_filter_candset in exact t).
+Proof. exact C06_code_filter_candset. Qed.
+Print Assumptions C06_code_candset.
+Theorem C06_code_candset_drop :
+  ltac:(let t := type of C06_code_drop in exact t).
+Proof. exact C06_code_drop. Qed.
+Print Assumptions C06_code_candset_drop.
